@@ -96,6 +96,88 @@ class VSpec:
     def arity(self):
         return 0 if self.kind == 'unit' else len(self.ftypes)
 
+    def strum_groups(self, e):
+        """The #[strum(..)] attributes of this variant AS WRITTEN: (props part, items part), each a list of groups (one
+        group = one attribute) of (kind, value) items in source order.  Rendered to Rust by rustgen and handed to the
+        Lean model as a `rawvariant` line (StrumModel/Collect.lean collects them the way get_variant_properties does)."""
+        items = [('ser', s) for s in self.ser]
+        if self.ts is not None:
+            items.append(('ts', self.ts))
+        if self.dis:
+            items.append(('dis', None))
+        if self.default:
+            items.append(('def', None))
+        if self.tr:
+            items.append(('tr', None))
+        # items no derive of this enum consumes (noise pass)
+        items += [({'default': 'def', 'transparent': 'tr'}[x], None) for x in e.extra.get('noise_items', {}).get(self.ident, [])]
+        if self.ci is not None:
+            items.append(('ci', self.ci))
+        if self.dw is not None:
+            items.append(('dw', self.dw))
+        if self.msg is not None:
+            items.append(('msg', self.msg))
+        if self.det is not None:
+            items.append(('det', self.det))
+        pgroups = []
+        sizes = e.extra.get('prop_groups', {}).get(self.ident)
+        props = list(self.props)
+        if props:
+            if not sizes:
+                sizes = [len(props)]
+            # what sits between two props groups: nothing / another (unconsumed) strum item as its own attribute /
+            # the groups and that item in ONE list
+            inter = e.extra.get('prop_interleave', {}).get(self.ident)
+            seps = []
+            if inter:
+                # every single-use item may occur once per variant
+                if 'EnumMessage' not in e.derives and self.det is None:
+                    seps.append(('det', 'between groups'))
+                if 'EnumMessage' not in e.derives and self.msg is None:
+                    seps.append(('msg', 'between groups'))
+                if 'EnumString' not in e.derives and self.ci is None:
+                    seps.append(('ci', False))
+                seps.append(('ser', 'between groups'))
+            bodies, i = [], 0
+            for gsz in sizes:
+                chunk = props[i:i + gsz]
+                i += gsz
+                if chunk:
+                    bodies.append(('props', chunk))
+            if seps and inter == 'list' and len(bodies) > 1:
+                parts = [bodies[0]]
+                for bi, body in enumerate(bodies[1:]):
+                    parts += [seps[min(bi, len(seps) - 1)], body]
+                pgroups.append(parts)
+            else:
+                for bi, body in enumerate(bodies):
+                    if seps and bi > 0:
+                        pgroups.append([seps[min(bi - 1, len(seps) - 1)]])
+                    pgroups.append([body])
+        if items and self.attr_layout in ('rev', 'revsplit'):
+            # reverse the order of the single-use items (the relative order of the serialize literals is observable
+            # and therefore kept)
+            sers = [i for i in items if i[0] == 'ser']
+            rest = [i for i in items if i[0] != 'ser']
+            items = list(reversed(rest)) + sers
+        igroups = []
+        if items:
+            igroups = [[it] for it in items] if self.attr_layout in ('split', 'revsplit') else [items]
+        return pgroups, igroups
+
+    def raw_attrs_token(self, e):
+        pg, ig = self.strum_groups(e)
+        def item(it):
+            k, val = it
+            if k in ('dis', 'def', 'tr'):
+                return k
+            if k == 'ci':
+                return 'ci~%d' % (1 if val else 0)
+            if k == 'props':
+                return 'props~' + VSpec(ident='', props=list(val)).props_token()
+            return '%s~%s' % (k, hx(val))
+        return '|'.join(';'.join(item(it) for it in g) for g in pg + ig) or '-'
+
     def kind_token(self):
         if self.kind == 'unit':
             return 'unit'
@@ -119,6 +201,11 @@ class VSpec:
             else:
                 out.append('%s:b:%d' % (hx(k), 1 if v else 0))
         return ','.join(out)
+
+    def raw_model_line(self, e):
+        return ('rawvariant %s ident=%s kind=%s discr=%s doc=%s attrs=%s'
+                % (e.id, hx(self.ident), self.kind_token(), '-' if self.discr is None else str(self.discr), lst(self.docs),
+                   self.raw_attrs_token(e)))
 
     def model_line(self, eid):
         b = lambda x: '1' if x else '0'
@@ -162,7 +249,8 @@ class ESpec:
                % (self.id, hx(self.name), self.style or '-', b(self.ci), opt(self.prefix), b(self.phf), b(self.err),
                   self.repr or '-', b(self.cis), opt(self.extra.get('dname')), self.extra.get('dvis', 0), ra)]
         for v in self.variants:
-            out.append(v.model_line(self.id))
+            # the variant as written: the Lean side collects the attributes itself (StrumModel/Collect.lean)
+            out.append(v.raw_model_line(self))
         return out
 
     def to_json(self):
